@@ -220,8 +220,135 @@ def exact_line(line, stratum):
     return case_exact_R(line, stratum)
 
 
+# ------------------------------------------------------------------ images of circles / ellipses / arcs (the SVD-based Mul impls)
+
+def _flat(els, n=24):
+    """dense polyline of an outline: list of points"""
+    pts = []
+    last = None
+    for el in els:
+        if el[0] == 'M':
+            last = el[1]
+            pts.append(last)
+        elif el[0] == 'Z':
+            continue
+        else:
+            ctrl = [last] + list(el[1:])
+            for i in range(1, n + 1):
+                t = i / n
+                ps = ctrl
+                while len(ps) > 1:
+                    ps = [(a[0] + (b[0] - a[0]) * t, a[1] + (b[1] - a[1]) * t) for a, b in zip(ps, ps[1:])]
+                pts.append(ps[0])
+            last = el[-1]
+    return pts
+
+
+def _dist_to_polyline(q, pts):
+    best = float('inf')
+    for a, b in zip(pts, pts[1:]):
+        dx, dy = b[0] - a[0], b[1] - a[1]
+        dd = dx * dx + dy * dy
+        t = 0.0 if dd == 0 else min(1.0, max(0.0, ((q[0] - a[0]) * dx + (q[1] - a[1]) * dy) / dd))
+        best = min(best, math.hypot(q[0] - a[0] - t * dx, q[1] - a[1] - t * dy))
+    if len(pts) == 1:
+        best = math.hypot(q[0] - pts[0][0], q[1] - pts[0][1])
+    return best
+
+
+@maker(MAKERS)
+def shape_image(a, kind, params, tol, stratum):
+    """Affine * (circle | ellipse | arc): the outline of the image shape vs the image of the outline (both from the implementation):
+    same point set (two-sided distance), same start and end point, same direction of traversal"""
+    from .shapes_common import parse_els
+    line = f'shape.affine {H(*a)} {kind} {H(*params)} {H(tol)}'
+    norm = math.hypot(a[0], a[1]) + math.hypot(a[2], a[3])
+
+    def judge(o):
+        i = o['I'][0]
+        if engine_error(i):
+            return 'engine error ' + i[:120]
+        img_s, map_s = i.split(' | ')
+        img, mp = parse_els(img_s), parse_els(map_s)
+        if not img or not mp or len(mp) < 2:
+            return None if (not img or len(img) < 2) and (not mp or len(mp) < 2) else f'one of the outlines is empty: image {len(img or [])} elements, mapped {len(mp or [])}'
+        if len(img) < 2:
+            return f'image outline is empty but the mapped outline has {len(mp)} elements'
+        fi, fm = _flat(img), _flat(mp)
+        ext = max(1.0, max(abs(c) for p in fm for c in p))
+        thr = 2.0 * tol * (1.0 + norm) + 1e-9 * ext
+        for q in fi[::3]:
+            d = _dist_to_polyline(q, fm)
+            if d > thr:
+                return f'point {q} of the image shape\'s outline is {d:.3g} away from the image of the outline (allowed {thr:.3g})'
+        for q in fm[::3]:
+            d = _dist_to_polyline(q, fi)
+            if d > thr:
+                return f'image point {q} of the outline is {d:.3g} away from the image shape\'s outline (allowed {thr:.3g})'
+        if kind == 'arc':
+            for nm, pa, pb in (('start', fi[0], fm[0]), ('end', fi[-1], fm[-1])):
+                d = math.hypot(pa[0] - pb[0], pa[1] - pb[1])
+                if d > thr:
+                    return f'{nm} point of the image arc {pa} differs from the image of the {nm} point {pb} by {d:.3g}'
+            # direction of traversal: a point shortly after the start
+            k = max(1, len(fi) // 12)
+            qa = fi[k]
+            # arc-length position of the nearest point on the mapped polyline must also be near its start (not near its end)
+            dists = [math.hypot(qa[0] - p[0], qa[1] - p[1]) for p in fm]
+            j = dists.index(min(dists))
+            if len(fm) > 8 and j > len(fm) * 0.6 and math.hypot(fm[0][0] - fm[-1][0], fm[0][1] - fm[-1][1]) > thr:
+                return 'the image arc is traversed against the image direction'
+        f = o['F'][0]
+        if engine_error(f):
+            return 'CORR engine error (model) ' + f[:100]
+        fimg = parse_els(f.split(' | ')[0])
+        if [e[0] for e in fimg] != [e[0] for e in img]:
+            return f'CORR structure of the image outline: impl {"".join(e[0] for e in img)} model {"".join(e[0] for e in fimg)}'
+        for ea, eb in zip(img, fimg):
+            for pa, pb in zip(ea[1:], eb[1:]):
+                if abs(pa[0] - pb[0]) > 1e-7 * ext or abs(pa[1] - pb[1]) > 1e-7 * ext:
+                    return f'CORR impl != model@Float on the image outline: {ea} vs {eb}'
+        return None
+    return Case(line, 'IF', judge, stratum, 'oracle')
+
+
+def gen_shape_images(rng, n):
+    for _ in range(n):
+        r = rng.random()
+        if r < 0.25:
+            th = rng.uniform(-7, 7)
+            s = rng.choice([1.0, 0.5, 3.0])
+            a = [s * math.cos(th), s * math.sin(th), -s * math.sin(th), s * math.cos(th), rng.uniform(-5, 5), rng.uniform(-5, 5)]
+            st = 'rotation'
+        elif r < 0.45:
+            a = rng.choice([[0.0, 1.0, 1.0, 0.0], [-1.0, 0.0, 0.0, 1.0], [1.0, 0.0, 0.0, -1.0], [0.6, 0.8, 0.8, -0.6]]) + [rng.uniform(-5, 5), rng.uniform(-5, 5)]
+            st = 'reflection'
+        elif r < 0.55:
+            a = [1.0, 0.0, 0.0, 1.0, 0.0, 0.0]
+            st = 'identity'
+        else:
+            while True:
+                a = [rng.uniform(-3, 3) for _ in range(6)]
+                det = a[0] * a[3] - a[1] * a[2]
+                if 1e-3 <= abs(det) <= 1e3 and abs(det) > 0.05:
+                    break
+            st = 'generic-det' + ('+' if det > 0 else '-')
+        kind = rng.choice(['circle', 'ellipse', 'ellipse', 'arc', 'arc', 'arc'])
+        c = [rng.uniform(-5, 5), rng.uniform(-5, 5)]
+        if kind == 'circle':
+            params = c + [rng.uniform(0.5, 5)]
+        elif kind == 'ellipse':
+            params = c + [rng.uniform(0.5, 5), rng.uniform(0.5, 5), rng.uniform(-7, 7)]
+        else:
+            sweep = rng.choice([rng.uniform(0.3, 6.0), -rng.uniform(0.3, 6.0), math.pi / 2, -math.pi])
+            # arc: center radii start sweep x_rotation
+            params = c + [rng.uniform(0.5, 5), rng.uniform(0.5, 5), rng.uniform(-7, 7), sweep, rng.choice([0.0, rng.uniform(-7, 7)])]
+        yield shape_image(a, kind, params, 0.001, f'image-{kind}/{st}')
+
+
 def generate(rng, tier):
     n = 600 if tier == 'quick' else 30000
+    yield from gen_shape_images(rng, 300 if tier == 'quick' else 6000)
     for _ in range(n):
         a, b = gaff(rng), gaff(rng)
         p = [grid(rng), grid(rng)]
